@@ -169,6 +169,7 @@ UNIT = {
         'ensures': [('tag_ok', 'n <= 4 ==> (r matches Ok(ft) && tag_of(ft) == n)'),
                     ('tag_bad_err', 'n > 4 ==> r is Err')]},
    'filter_paeth': shared(_m.FILTER_PAETH),
+   'filter_avg': shared(_m.FILTER_AVG),       # optional: absent from the pinned text (units/unfilter/unit.py)
    'unfilter': shared(_m.UNFILTER),
    'flate_decode': FLATE,
    'lzw_decode': LZW,
